@@ -38,6 +38,8 @@ type C01Case struct {
 	// RideOut: ReadTimeout one minute, the peer is silent for five minutes before the LAST segment, and the backend
 	// answers the timeout error of its reader by lifting the connection's read deadline and reading on
 	RideOut bool `json:"ride_out,omitempty"`
+	// ReadTO: the server has ReadTimeout 30 min (nothing ever waits that long: only the option is on)
+	ReadTO bool `json:"read_timeout,omitempty"`
 }
 
 type segReader struct {
@@ -123,6 +125,9 @@ func evalC01(c C01Case) (f *h.Finding) {
 			cfg.ReadTO, cfg.WriteTO, cfg.PeerPause = 30*time.Minute, 10*time.Second, true
 		}
 		segs := cutSegs(full, cuts)
+		if c.ReadTO {
+			cfg.ReadTO = 30 * time.Minute
+		}
 		if c.RideOut {
 			cfg.ReadTO = time.Minute
 			cfg.LongPauseBefore = len(segs)
@@ -227,7 +232,7 @@ func C01(tier string) int {
 		limits = []int64{0, 1 << 20}
 		allSegUpTo = 7
 	}
-	run.Rule = fmt.Sprintf("every octet stream body+CRLF.CRLF+tail and .CRLF+tail with body over the class alphabet {'.',CR,LF,'a'} of length<=%d (reader seam) / <=%d (full server path), each x segmentations {one segment, one octet per segment, every 2-split%s} x backend read sizes %v x size limit {none, exactly the message size (bodies <= 8)}; distinct by construction (enumeration), non-trivial = body contains '.', CR or LF. Plus (full server path) lines of exactly the maximal permitted length, 1 and 5 less, behind/in front of other lines with the segment boundary at EVERY position (MaxLineLength 32; default 2000 with the line's CR at octets 4094..4098 of the connection, i.e. around the server's read-buffer boundary), and all bodies <=4 from a SLOW peer (40 s virtual pause before every segment, WriteTimeout 10 s, ReadTimeout 30 min; the scripted connection honours the armed read deadline). A message transferred in plaintext, STARTTLS with a real handshake, then 5 messages via DATA inside TLS (x 3 modes x 3 kinds of plaintext transfer). All bodies <=5 x every cut point with a READ TIMEOUT at the cut (ReadTimeout 1 min, five minutes of silence) that the backend rides out by lifting the connection's deadline and reading on (the reader must resume where it was). All bodies <=5 once more as the SECOND message of the connection, behind a chunked one, under a size limit that each message fits but not both together. All bodies <=4 over {NUL, ESC, DEL, '.', CR, LF} with Server.Debug set (the traffic is copied to a writer). All bodies <=5 with the end of the message and the end of the connection delivered by ONE Read (n > 0 together with io.EOF, as crypto/tls does for a waiting close_notify) x {everything in one read, message in its own read, last 1..6 octets in the last read}. Oracle: ref.Unstuff. Random 256-octet streams are a labelled supplement (counters.random_supplement) and not part of 'exhaustive'.",
+	run.Rule = fmt.Sprintf("every octet stream body+CRLF.CRLF+tail and .CRLF+tail with body over the class alphabet {'.',CR,LF,'a'} of length<=%d (reader seam) / <=%d (full server path), each x segmentations {one segment, one octet per segment, every 2-split%s} x backend read sizes %v x size limit {none, exactly the message size (bodies <= 8; full server path, bodies <= 5: also with ReadTimeout configured)}; distinct by construction (enumeration), non-trivial = body contains '.', CR or LF. Plus (full server path) lines of exactly the maximal permitted length, 1 and 5 less, behind/in front of other lines with the segment boundary at EVERY position (MaxLineLength 32; default 2000 with the line's CR at octets 4094..4098 of the connection, i.e. around the server's read-buffer boundary), and all bodies <=4 from a SLOW peer (40 s virtual pause before every segment, WriteTimeout 10 s, ReadTimeout 30 min; the scripted connection honours the armed read deadline). A message transferred in plaintext, STARTTLS with a real handshake, then 5 messages via DATA inside TLS (x 3 modes x 3 kinds of plaintext transfer). All bodies <=5 x every cut point with a READ TIMEOUT at the cut (ReadTimeout 1 min, five minutes of silence) that the backend rides out by lifting the connection's deadline and reading on (the reader must resume where it was). All bodies <=5 once more as the SECOND message of the connection, behind a chunked one, under a size limit that each message fits but not both together. All bodies <=4 over {NUL, ESC, DEL, '.', CR, LF} with Server.Debug set (the traffic is copied to a writer). All bodies <=5 with the end of the message and the end of the connection delivered by ONE Read (n > 0 together with io.EOF, as crypto/tls does for a waiting close_notify) x {everything in one read, message in its own read, last 1..6 octets in the last read}. Oracle: ref.Unstuff. Random 256-octet streams are a labelled supplement (counters.random_supplement) and not part of 'exhaustive'.",
 		L, LS, map[bool]string{true: fmt.Sprintf(", all 2^(n-1) segmentations for streams of <=%d+5 octets", allSegUpTo), false: ""}[allSegUpTo > 0], bufs)
 	run.Assumptions = []string{
 		"the reader branches only on '.', CR, LF vs. any other octet, so one representative 'a' stands for the 253 other octets (the random supplement exercises all 256 values)",
@@ -285,6 +290,17 @@ func C01(tier string) int {
 						c.Show = fmt.Sprintf("%q", stream)
 						cc := c
 						run.Violate("c01", cc, f, func() *h.Finding { return evalC01(cc) })
+					}
+					if seam == "server" && lim > 0 && lim == int64(len(want0)) && bodyLen <= 5 {
+						// the exact-fit limit once more with ReadTimeout configured (two options that meet in the reader's
+						// look-ahead for the end marker)
+						c2 := c
+						c2.ReadTO = true
+						if f := evalC01(c2); f != nil {
+							c2.Show = fmt.Sprintf("%q", stream)
+							run.Violate("c01", c2, f, func() *h.Finding { return evalC01(c2) })
+						}
+						run.Eval(nontrivial)
 					}
 				}
 			}
